@@ -55,6 +55,18 @@ def mkParams (p d m r q st x : Nat) (dyn : Bool := false) (lat : Nat := 0) (act 
     aFails := if act ≥ 4 && act ≤ 7 then 1 + (act - 4) % 2 else 1,
     dynamic := dyn }
 
+/-- the expect_status values a load step can choose from (0 = not set; < 100 = a class) -/
+def expectTable : List Nat := [0, 2, 3, 4, 5, 200, 201, 301, 403, 404, 503]
+
+/-- the statuses a scripted health endpoint can answer with -/
+def probeStatusTable : List Nat := [200, 201, 301, 404, 503]
+
+/-- the bodies a scripted health endpoint can answer with: "DOWN", "UP", "UPDATE" -/
+def probeBody : Nat → List Nat
+  | 1 => upLit
+  | 2 => upLit ++ [68, 65, 84, 69]
+  | _ => [68, 79, 87, 78]
+
 def outcomeNames : List String := ["ok", "sl", "e5", "c404", "c429", "c502", "c503", "rst", "hup", "pan", "her"]
 
 def parseStep (s : String) (K : Nat) : Option SStep :=
@@ -87,6 +99,20 @@ def parseStep (s : String) (K : Nat) : Option SStep :=
         some (.load ks (mkParams p d m r q st x false 0 8) [])
       else none
     | _, _, _, _, _, _, _, _, _ => none
+  | ["L", ks, p, d, m, r, q, st, x, l, es, eb, mx, hd] =>
+    -- active health checks driven by the schedule (l = 4..7) with expectations: es = expect_status
+    -- (0 = not set), eb = expect_body `^UP` set, mx = max_size (0 = not set), hd = the health
+    -- request carries the header `X-Verif-Hc: yes`
+    match parseKeys ks K, num p, num d, num m, num r, num q, num st, num x, num l with
+    | some ks, some p, some d, some m, some r, some q, some st, some x, some l =>
+      match num es, num eb, num mx, num hd with
+      | some es, some eb, some mx, some hd =>
+        if p ≤ 1 && r ≤ 8 && st ≤ 7 && m ≤ 100 && q ≤ 100 && x ≤ 100 && 4 ≤ l && l ≤ 7 && ks.eraseDups.length == ks.length
+            && expectTable.contains es && eb ≤ 1 && mx ≤ 100 && hd ≤ 1 then
+          some (.load ks { mkParams p d m r q st x false 0 l with aExpect := es, aBody := eb == 1, aMax := mx, aHdr := hd == 1 } [])
+        else none
+      | _, _, _, _ => none
+    | _, _, _, _, _, _, _, _, _ => none
   | ["Y", ks, p, d, m, r, q, st] =>
     -- a configuration whose upstreams come from a dynamic source returning `ks`
     match parseKeys ks K, num p, num d, num m, num r, num q, num st with
@@ -101,6 +127,14 @@ def parseStep (s : String) (K : Nat) : Option SStep :=
     | _, _, _, _, _, _, _, _ => none
   | ["H", k, "1"] => (num k).bind fun k => if k < K then some (.health k true) else none
   | ["H", k, "0"] => (num k).bind fun k => if k < K then some (.health k false) else none
+  | ["H", k, st, b, hd] =>
+    -- the health endpoint of backend k scripted in full: status, body (0 "DOWN", 1 "UP", 2 "UPDATE"),
+    -- hd = 1: it answers 403 to a health request without the header `X-Verif-Hc: yes`
+    match num k, num st, num b, num hd with
+    | some k, some st, some b, some hd =>
+      if k < K && probeStatusTable.contains st && b ≤ 2 && hd ≤ 1 then
+        some (.probe k { status := st, body := probeBody b, needsHdr := hd == 1 }) else none
+    | _, _, _, _ => none
   | ["K"] => some .round
   | ["E", "1"] => some (.srcFail true)
   | ["E", "0"] => some (.srcFail false)
@@ -150,6 +184,7 @@ def loadModes (steps : List String) : List Nat :=
   steps.map fun st =>
     match st.splitOn ":" with
     | ["L", _, _, _, _, _, _, _, _, l] => (num l).getD 0
+    | ["L", _, _, _, _, _, _, _, _, l, _, _, _, _] => (num l).getD 0
     | _ => 0
 
 /-- free-running background checks (modes 2, 3) would move the active counters of shared Hosts by
